@@ -773,6 +773,7 @@ func genMergeWorkloads(r *Rand) (wa, wb, wab *Workload, pkg string, mode string)
 	seedA, seedB := r.U64(), r.U64()
 	pa := GenPackage(NewRand(seedA), pkg, GenOpts{NoAllOf: true})
 	var pb *WPackage
+	hintOnlyB := false
 	switch mode {
 	case "identical":
 		pb = pa
@@ -800,7 +801,11 @@ func genMergeWorkloads(r *Rand) (wa, wb, wab *Workload, pkg string, mode string)
 					WObject{Name: "Measure", T: &WType{K: "struct", Fields: []WField{{Name: "value", T: &WType{K: "number"}, Required: true}, {Name: "unit", T: &WType{K: "ref", Ref: "Unit"}, Required: true}}}})
 			}
 			m := &pb.Objects[len(pb.Objects)-1]
-			switch sr.Intn(3) {
+			switch sr.Intn(4) {
+			case 3:
+				// the two definitions are the same text; the second input carries a
+				// transformation that puts a hint on the object: they differ in a hint only
+				hintOnlyB = true
 			case 0:
 				m.T.Fields[1].T = &WType{K: "ref", Ref: "unit"}
 			case 1:
@@ -841,6 +846,10 @@ func genMergeWorkloads(r *Rand) (wa, wb, wab *Workload, pkg string, mode string)
 		wb.Files["in/b/"+filepath.Base(ib.Path)] = wb.Files[ib.Path]
 		delete(wb.Files, ib.Path)
 		ib.Path = "in/b/" + filepath.Base(ib.Path)
+	}
+	if hintOnlyB {
+		wb.Files["cfg/hint_b.yaml"] = "passes:\n  - hint_object:\n      object: " + pkg + ".Measure\n      hints:\n        implements_variant: dataquery\n"
+		ib.Transformations = []string{"cfg/hint_b.yaml"}
 	}
 	wb.Inputs = []InputSpec{ib}
 	for k, v := range wa.Files {
